@@ -95,7 +95,18 @@ def snapshot(g, orig_samples, orig_vars):
     return {"samples": list(map(str, g.samples)), "vars": [str(v) for v in g.variants["id"]], "data": data, "anc": anc, "hasPhase": bool(has_phase), "isBool": bool(d.dtype == np.bool_)}
 
 
-MSG = re.compile(r"ID (\S+) at POS \S+:(\d+) .* for sample (\S+)$|ID (\S+) at POS \S+:(\d+) has MAF")
+def _token_in(tok, msg):
+    return re.search(r"(?<![\w.|+*()-])" + re.escape(tok) + r"(?![\w|+*()-])", msg) is not None
+
+
+def named_in(msg, samples, variants):
+    """which (sample, variant) pairs of the data an error message names, however it is worded: a sample by its ID, a variant by
+    its position (chrom:pos) or, when the message holds no position of any variant, by its ID; sample index None = the message
+    names no sample"""
+    by_pos = [j for j, (vid, pos) in enumerate(variants) if _token_in(f":{pos}", msg) or _token_in(f"1:{pos}", msg)]
+    vs = by_pos or [j for j, (vid, pos) in enumerate(variants) if _token_in(vid, msg)]
+    ss = [i for i, name in enumerate(samples) if _token_in(name, msg)]
+    return [[i, j] for i in (ss or [None]) for j in vs]
 
 
 def impl(case):
@@ -114,13 +125,7 @@ def impl(case):
             else:
                 maf = g.check_maf(threshold=o["num"] / o["den"], discard_also=o["discard"], warn_only=o["warn"])
         except ValueError as e:
-            m = MSG.search(str(e))
-            if not m:
-                trace.append({"raised": "unparsed:" + str(e)[:80]})
-            elif m.group(4):
-                trace.append({"raised": [0, vars_before.index((m.group(4), int(m.group(5))))]})
-            else:
-                trace.append({"raised": [samples_before.index(m.group(3)), vars_before.index((m.group(1), int(m.group(2))))]})
+            trace.append({"raised": {"named": named_in(str(e), samples_before, vars_before), "text": str(e)[:160]}})
             break
         e = {"state": snapshot(g, None, None)}
         if maf is not None:
@@ -218,13 +223,17 @@ def oracle(case, obs):
             if "raised" not in e:
                 return f"step {k} {o}: offending data {sorted(off)[:3]} but no error was raised"
             r = e["raised"]
-            if isinstance(r, str):
-                return f"step {k} {o}: error message does not name a sample and variant: {r}"
+            named = [tuple(x) for x in r["named"]]
             if o["k"] == "maf":
-                if r[1] not in {j for _, j in off}:
-                    return f"step {k} {o}: error names variant {r[1]}, which is not below the threshold"
-            elif tuple(r) not in off:
-                return f"step {k} {o}: error names (sample {r[0]}, variant {r[1]}), which is not an offending call; offenders {sorted(off)[:4]}"
+                if not named:
+                    return f"step {k} {o}: the error names no variant of the data (neither a position nor an ID): {r['text']!r}"
+                if not ({j for _, j in named} & {j for _, j in off}):
+                    return f"step {k} {o}: the error names variant(s) {sorted({j for _, j in named})}, none of which is below the threshold: {r['text']!r}"
+            else:
+                if not named or all(i is None for i, _ in named):
+                    return f"step {k} {o}: the error does not name a sample and a variant of the data: {r['text']!r}"
+                if not (set(named) & off):
+                    return f"step {k} {o}: the error names {named[:3]} (sample, variant), none of which is an offending call; offenders {sorted(off)[:4]}: {r['text']!r}"
             return None
         if "raised" in e:
             return f"step {k} {o}: raised {e['raised']} although nothing offends (or discard/warn mode)"
